@@ -88,7 +88,10 @@ def draw_ids(tp: Tape, n: int, mode=None):
         elif k == 2:
             v = 100 + tp.below(1000)
         else:
-            v = (1 << (31 + tp.below(10))) + tp.below(1000)
+            # up to 2**62 + small: beyond the integers a double can hold
+            v = (1 << (31 + tp.below(32))) + tp.below(1000)
+            if tp.chance(60):
+                v = -v
         while v in seen:
             v += 1
         seen.add(v)
@@ -115,7 +118,7 @@ def skeleton(tp: Tape, cls, nmax=8, family=None, ids_mode=None, kmax=4,
              wide=False, nmin=0, max_deg=6, alpha=None):
     m = Model(cls)
     if family is None:
-        family = FAMILIES[tp.weighted([5, 4, 3, 4, 2, 2, 3, 1])]
+        family = FAMILIES[tp.weighted([5, 4, 3, 4, 2, 2, 3])]  # bigstar: opt-in
     if family == "double":
         return _double(tp, cls, nmax, ids_mode, kmax, alpha)
     if family == "bigstar":
